@@ -6,6 +6,8 @@ def classify(case):
     literal null (visible before the save, absent after the load), and nothing else differs"""
     obs = case.get("observed") or {}
     diffs = [d for ds in (obs.get("reload_diffs") or []) for d in (ds or [])]
+    if obs.get("other_clause_fails"):
+        return None
     if diffs and all(d.startswith("null:") for d in diffs):
         return "data-json-null"
     return None
